@@ -608,7 +608,7 @@ func c14owed(tk []string, kept *[]byte) (kind, want string, called bool) {
 		return "reply", c14showReply(r), true
 	}
 	if tk[1] == "ws" {
-		tag := map[string]string{"C14Echo": "Echo", "C14Swap": "Swap", "C14Key": "Key", "C14Keep": "Keep"}[tk[4]]
+		tag := map[string]string{"C14Echo": "Echo", "C14Swap": "Swap", "C14Key": "Key", "C14Keep": "Keep", "C14Both": "BothWs"}[tk[4]]
 		if tag == "" {
 			return "error", "", false
 		}
@@ -643,7 +643,8 @@ func c14owed(tk []string, kept *[]byte) (kind, want string, called bool) {
 		slash       bool
 	}
 	hs := map[string]hd{"C14Post": {"POST", "Post", false}, "C14Put": {"PUT", "Put", false},
-		"C14Int": {"GET", "Int", true}, "C14Bytes": {"GET", "Bytes", true}, "C14Empty": {"GET", "Empty", false}}
+		"C14Int": {"GET", "Int", true}, "C14Bytes": {"GET", "Bytes", true}, "C14Empty": {"GET", "Empty", false},
+		"C14Both": {"POST", "BothRest", false}}
 	hh, ok := hs[res]
 	if !ok || hh.slash != (tail != "-") {
 		return "any", "", false
@@ -958,13 +959,17 @@ func (g *c14gen) wsBuf(kindHint int) (string, string) {
 
 func (g *c14gen) wsPath() string {
 	r := g.c.Rng
-	switch r.Intn(12) {
+	switch r.Intn(14) {
 	case 0:
 		return "Nope"
 	case 1:
 		return "C14" + strings.Repeat("x", 50+r.Intn(20)) // unregistered, reason near the frame limit
 	case 2, 3, 4:
 		return "C14Swap"
+	case 5:
+		return "C14Both" // registered for both APIs, with different functions
+	case 6:
+		return []string{"C14Post", "C14Put", "C14Empty"}[r.Intn(3)] // registered for REST only: no websocket path
 	}
 	return "C14Echo"
 }
@@ -973,7 +978,7 @@ func (g *c14gen) wsPath() string {
 func (g *c14gen) restReq(res string) (string, string) {
 	r := g.c.Rng
 	if res == "" {
-		res = []string{"C14Post", "C14Post", "C14Post", "C14Put", "C14Put", "C14Int", "C14Bytes", "C14Empty", "Nope"}[r.Intn(9)]
+		res = []string{"C14Post", "C14Post", "C14Post", "C14Put", "C14Put", "C14Int", "C14Bytes", "C14Empty", "Nope", "C14Both", "C14Echo"}[r.Intn(11)]
 	}
 	item := func(f string) string {
 		if r.Intn(6) == 0 {
@@ -1021,7 +1026,8 @@ func (g *c14gen) restReq(res string) (string, string) {
 		}
 		return "-", "no-body"
 	}
-	method := map[string]string{"C14Post": "POST", "C14Put": "PUT", "C14Int": "GET", "C14Bytes": "GET", "C14Empty": "GET", "Nope": "GET"}[res]
+	method := map[string]string{"C14Post": "POST", "C14Put": "PUT", "C14Int": "GET", "C14Bytes": "GET", "C14Empty": "GET", "Nope": "GET",
+		"C14Both": "POST", "C14Echo": "POST"}[res] // C14Echo: registered for the websocket API only, no REST resource
 	kind := "ok-method"
 	if r.Intn(10) == 0 {
 		method = []string{"GET", "POST", "PUT", "DELETE"}[r.Intn(4)]
@@ -1065,7 +1071,7 @@ func (g *c14gen) restReq(res string) (string, string) {
 		if method != "GET" {
 			b, _ = body()
 		}
-	case "C14Empty", "Nope":
+	case "C14Empty", "Nope", "C14Echo":
 		if r.Intn(8) == 0 {
 			tail = "5"
 		}
@@ -1180,8 +1186,43 @@ func c14genCases(c *h.Ctx, yield func(*h.Case)) {
 		emit(cs)
 	}
 
+	{
+		// one message type registered for both APIs with different functions (seed C14r4-B): each
+		// API answers with its own function; a type registered for one API only is unknown to the other
+		cs := &h.Case{Class: "corpus:both-apis"}
+		enc := func(a int64, s string) string {
+			b, _ := protobuf.Encode(&C14Both{A: a, S: s, B: []byte{1, 2}})
+			return h.Hex(b)
+		}
+		cs.Ops = append(cs.Ops, "c14 ws t1 k1 C14Both "+enc(1, "one"), "c14 rest t1 k1 POST json C14Both - A=2;S="+hx("two")+";B=0304",
+			"c14 ws t1 o1 C14Both "+enc(3, "three"), "c14 ws t1 k1 C14Both "+enc(4, "four"), "c14 rest t1 o1 POST json C14Both - {}",
+			"c14 ws t1 k2 C14Post "+enc(5, "five"), "c14 rest t1 k1 POST json C14Echo - A=6", "c14 ws t1 k1 C14Both "+enc(7, "fail"),
+			"c14 rest t1 k1 POST json C14Both - S="+hx("panic"), "c14 ws t1 k1 C14Both "+enc(8, "eight"))
+		emit(cs)
+	}
+
 	n := c.Pick(200, 2500)
 	for it := 0; it < n && !c.TooManyFails(); it++ {
+		if it%2 == 0 {
+			// both APIs of one message type at once, from several threads
+			cs := &h.Case{Class: "both-apis"}
+			nthr := 2 + r.Intn(4)
+			for i := 0; i < nthr*(3+r.Intn(5)); i++ {
+				t := r.Intn(nthr)
+				thr := fmt.Sprintf("t%d", t)
+				if r.Intn(2) == 0 {
+					hint := 0
+					if r.Intn(5) == 0 {
+						hint = -1
+					}
+					wsop(cs, thr, []string{"k0", fmt.Sprintf("k9%d", t), fmt.Sprintf("o%d", t)}[r.Intn(3)], "C14Both", hint)
+				} else {
+					restop(cs, thr, fmt.Sprintf("%s%d", []string{"k", "o"}[t%2], t), "C14Both")
+				}
+			}
+			emit(cs)
+		}
+
 		// sequences on one kept websocket connection
 		cs := &h.Case{Class: "seq-ws"}
 		cl := []string{"k1", "o1"}[r.Intn(2)]
